@@ -121,7 +121,14 @@ def inject_suite(ctx, env, watch):
             merr = [(rng.choice([404, 500, 503]), rng.randint(0, 3))] if use_manifest else []
             fired = passed = False
             segs_seen = []
+            session_fc = fc
+            varying = rng.random() < 0.35       # the failure count may change from one request of the session to the next
+            constant_fc = True
             for _ in range(rng.randint(6, 14 if ctx.quick() else 40)):
+                fc = session_fc
+                if varying and rng.random() < 0.4:
+                    fc = rng.choice([None, None, 0, 1, 2, 3])
+                    constant_fc = constant_fc and fc == session_fc
                 if use_manifest and rng.random() < 0.3:
                     upd = rng.choice([None, 0, 1, 2, 3])
                     q = ['merr=' + ','.join('%d=%d' % e for e in merr)]
@@ -158,7 +165,8 @@ def inject_suite(ctx, env, watch):
                     ctx.dist('inject:plain-%d' % st)
                 fired = fired or synthetic
                 passed = passed or st == 200
-            if single:
+            fc = session_fc
+            if single and constant_fc:
                 code, pos = errs['video'][0]
                 want = closed_form(code, pos, fc, segs_seen)
                 if got != want:
@@ -169,6 +177,23 @@ def inject_suite(ctx, env, watch):
                 ctx.nontriv(('inject', sidx, tuple(inps)))
             reqs.append([0, model_reqs])
             meta.append(({'session': inps}, got))
+        # scripted sessions: the failure count appears, disappears or changes while one client keeps asking for the addressed segment
+        for code in (503, 500):
+            for script in ([None, None, None, 2, 2, 2, 2], [1, 1, None, None, 1, 1, 1], [3, 0, 0, 3, 3, 3, 3, 3], [None, 0, None, 1, 1]):
+                c = env.client()
+                model_reqs, got, inps = [], [], []
+                for fcv in script:
+                    q = ['verr=%d=5' % code] + (['failures=%d' % fcv] if fcv is not None else [])
+                    url = '/dash/vod/bbb/bbb_v7/5.m4v?' + '&'.join(q)
+                    st, site, r = watch.get(c, url)
+                    ctx.count('http:inject')
+                    inps.append(url)
+                    model_reqs.append([0, USAGE['video'], [] if fcv is None else [fcv], [[code, 5]], 5])
+                    body = r.get_data(as_text=True) if (r is not None and st != 200) else ''
+                    got.append(st if body.startswith('Synthetic') else None)
+                reqs.append([0, model_reqs])
+                meta.append(({'session': inps}, got))
+                ctx.nontriv(('inject-script', code, tuple(script)))
     res = common.run_model_parallel(16, reqs)
     ok = True
     for (inp, got), m in zip(meta, res):
@@ -476,6 +501,20 @@ def valid_combinations(ctx, env, watch):
                 if mf is not None and mf.representation is not None:
                     rp = mf.representation
                     tracks.append((nm, ext, rp.start_number, rp.num_media_segments, rp.segment_duration))
+        # Range headers on the routes that honour them (C13 decides the bytes; here: below 500 whatever the header says)
+        ranges = ['bytes=10-5', 'bytes=5-5', 'bytes=-0', 'bytes=-1', 'bytes=0-', 'bytes=99999999-', 'bytes=99999999-5', 'bytes=5-99999999999999999999',
+                  'bytes=-99999999999999999999', 'bytes=a-b', 'bytes=', 'bytes=1-2,4-5', 'items=0-5', 'bytes=--5', 'bytes=5--', 'bytes=0x10-0x20',
+                  'bytes= 5 - 9 ', '', 'bytes=\u0661-\u0665']
+        for path in ('/dash/odvod/bbb/bbb_v7.m4v', '/dash/odvod/bbb/bbb_a1.m4a', '/dash/vod/bbb/bbb_v7/3.m4v', '/dash/live/bbb/bbb_a1/init.m4a'):
+            for rg in ranges:
+                try:
+                    st, site, r = watch.get(c, path, headers={'Range': rg})
+                except Exception as e:  # noqa   (a header the test client itself refuses to send)
+                    ctx.dist('range-header-not-sent:%s' % type(e).__name__)
+                    continue
+                ctx.count('http:range-boundaries')
+                if st == 'HANG' or (isinstance(st, int) and st >= 500):
+                    sites.setdefault('http:%s' % (site or st), []).append(('%s [Range: %s]' % (path, rg), st))
         for nm, ext, sn, n, sd in tracks:
             nums = [-1, 0, sn - 1, sn, sn + 1, sn + n - 2, sn + n - 1, sn + n, sn + n + 1, sn + 2 * n, 2**31 - 1, 2**31, 2**63, 10**30]
             times = [0, 1, sd - 1, sd, sd * (n - 1), sd * n - 1, sd * n, sd * n + 1, sd * (n + 1), 2**32, 2**63, 10**30]
